@@ -499,9 +499,14 @@ pub fn run_e2_part(part: &dyn E2Part, tier: Tier, seed: u64, known: &Known) -> R
 }
 
 /// Replay one tape through an E2 part (strict: known findings not tolerated unless `known` lists them and !strict).
-pub fn replay_e2(part: &dyn E2Part, tape: &[u16], known: &Known, strict: bool) -> Result<Option<String>, String> {
+pub fn replay_e2(part: &dyn E2Part, tape: &[u16], stored: Option<E2Case>, known: &Known, strict: bool) -> Result<Option<String>, String> {
     let ws = Workspace::new(&format!("replay-{}", part.prop()))?;
-    let c = part.gen(tape);
+    // the stored program (type definitions, derive inputs, reference functions, run) wins over the tape: the tape only
+    // reproduces it with the generator it was drawn from; the derive inputs are expanded again with the current /repo
+    let c = match stored {
+        Some(c) => c,
+        None => part.gen(tape),
+    };
     let r = run_batch(&ws, "replay", &[&c], part.mode())?;
     let o = r.into_iter().next().ok_or("no outcome")?;
     if !o.is_failure() {
